@@ -152,10 +152,24 @@ def one(force, method, raw=False):
                 est = ("nan" if np.isnan(r) else int(r), int(clipped.size))
             except BaseException as e:  # noqa
                 est = ("exc:" + type(e).__name__, -1)
+        # the same request with ret_details=True (the other public form of the call)
+        det = None
+        if raw:
+            try:
+                n0 = len(rec.calls)
+                out = poc.compute_poc(force, method, ret_details=True)
+                del rec.calls[n0:]
+                cpd, details = out
+                if not isinstance(details, dict) or details.get("method") != method:
+                    det = "bad-details:" + repr(type(details).__name__)
+                elif isinstance(res, int) and int(cpd) != res:
+                    det = f"index-differs:{int(cpd)}"
+            except BaseException as e:  # noqa
+                det = "exc:" + type(e).__name__ + ":" + str(e)[:80]
     mod = not np.array_equal(force, f0)
     y = rec.calls[0]["y"] if rec.calls else None
     x0 = rec.calls[0]["x0"] if rec.calls else None
-    return res, est, y, x0, mod
+    return res, est, y, x0, mod, det
 
 
 def transforms(rng, fscale):
@@ -167,7 +181,7 @@ def transforms(rng, fscale):
 
 
 def transformed(force, m, kind, a, b_, y, x0):
-    r2, _, y2, x02, _ = one(a * force + b_, m)
+    r2, _, y2, x02, _, _ = one(a * force + b_, m)
     ydiff = None
     if y is not None and y2 is not None and y.shape == y2.shape:
         ydiff = float(np.max(np.abs(y - y2))) if y.size else 0.0
@@ -184,11 +198,11 @@ def work(job):
     fscale = float(np.max(np.abs(force))) if force.size and np.max(np.abs(force)) > 0 else 1.0
     out = []
     for m in job["methods"]:
-        res, est, y, x0, mod = one(force, m, raw=True)
+        res, est, y, x0, mod, det = one(force, m, raw=True)
         tr = []
         for kind, a, b_ in (transforms(rng, fscale) if job.get("transforms", True) else []) + job.get("extra_tr", []):
             tr.append(transformed(force, m, kind, a, b_, y, x0))
-        out.append({"method": m, "res": res, "est": est, "mod": mod, "tr": tr,
+        out.append({"method": m, "res": res, "est": est, "mod": mod, "tr": tr, "det": det,
                     "y": None if y is None or not job.get("keep_y") else [float(v) for v in y], "x0": x0})
     return out
 
@@ -208,6 +222,9 @@ def judge(ctx, meta, force, results, truth=None):
         if not (0 <= res < max(n, 1)):
             ctx.violation(f"index-out-of-range:{m}", f"{m} returned index {res} for an array of {n} samples "
                           f"({shape})", rep)
+        if r.get("det"):
+            ctx.violation(f"ret_details:{m}:{r['det'].split(':')[0]}", f"compute_poc(method={m}, ret_details=True) on a "
+                          f"'{shape}' array of {n} samples: {r['det']} (plain call: {res})", rep)
         if r["mod"]:
             ctx.violation(f"input-modified:{m}", f"{m} modified the force array it was given", rep)
         est = r["est"]
@@ -395,13 +412,13 @@ def run(ctx):
             F = F + float(rng.randint(-5000, 5000))
         fq = [str(int(v)) for v in F]
         for m in DIRECT:
-            res, est, _, _, _ = one(F, m, raw=True)
+            res, est, _, _, _, _ = one(F, m, raw=True)
             lines.append({"op": "poc", "method": m, "force": fq, **consts})
             expect.append(("poc", i, m, F, res, est))
         lines.append({"op": "margin", "force": fq, **consts})
         expect.append(("margin", i, None, F, None, None))
         for m, minsize in FITTED.items():
-            res, est, y, x0, _ = one(F, m, raw=True)
+            res, est, y, x0, _, _ = one(F, m, raw=True)
             lines.append({"op": "norm", "force": fq, **consts})
             expect.append(("norm", i, m, F, (res, minsize), (y, x0)))
     out = ctx.driver("C08", lines)
